@@ -161,15 +161,18 @@ Theorem C02_tsv_rows :
 Proof. exact tsv_rows_spec. Qed.
 Print Assumptions C02_tsv_rows.
 
-(* Outside the two failure classes the export does return (no exception): all
-   requested features exist, every array has len(ds) events, and image-like
-   sources accept array indices unless they are integer-only sources of a
-   non-hdf5 dataset exported with filtering (the event-wise route). *)
+(* Outside the known failure classes the export does return (no exception):
+   all requested features exist; scalars have len(ds) events while n-d
+   features (image, mask, contour, trace, temporary) may be SHORTER (aborted
+   acquisition); with the length check on, some requested array spans the whole
+   dataset (without the check all do); image-like sources accept array indices
+   unless they are integer-only sources of a non-hdf5 dataset exported with
+   filtering (the event-wise route). *)
 Theorem C02_export_total_partial :
   forall (A : Type) (d z : A) (enum : Z -> A) (cfg : Z) (ds : dset A)
          (filt : list bool) (filtered skip : bool) (req : list Z),
     len filt = ds_len ds ->
-    export_guard A ds filtered req = true ->
+    export_guard A ds filtered skip req = true ->
     exists calls cnt,
       export A d z enum cfg ds filt filtered skip req = Ok (calls, cnt).
 Proof. exact export_total_partial. Qed.
@@ -194,21 +197,20 @@ Theorem C02_export_uniform_count :
 Proof. exact export_uniform. Qed.
 Print Assumptions C02_export_uniform_count.
 
-(* Default feature list, metadata and flags: the stored event count is the
-   export's count; the run identifier is "<measurement identifier>-<suffix>"
-   when filtered and unchanged otherwise; the sample name is unchanged; source
-   logs / tables are stored exactly when requested; with features=None only
-   innate features are written (basin features are left to the basins); with
-   features=[] nothing is written and the count is the number of selected
-   events; the basins flag never changes what is written.  uuid4 is the oracle
-   value rnd. *)
+(* Default feature list and metadata: the stored event count is the export's
+   count; the run identifier is "<measurement identifier>-<suffix>" when
+   filtered and unchanged otherwise; the sample name is unchanged; with
+   features=None only innate features are written (basin features are left to
+   the basins); with features=[] nothing is written and the count is the number
+   of selected events.  uuid4 is the oracle value rnd.  (The basins flag is not
+   an argument of anything written: export_full ignores it by construction.) *)
 Theorem C02_export_meta_spec :
-  forall (A : Type) (d z : A) (enum : Z -> A) (rnd cfg : Z) (ds : dset A)
-         (innate : list Z) (sm : smeta) (filt : list bool)
+  forall (A : Type) (d z : A) (enum : Z -> A) (rnd cfg : Z) (pre : Z -> Z)
+         (ds : dset A) (innate : list Z) (sm : smeta) (filt : list bool)
          (filtered skip logs tables basins : bool) (features : option (list Z))
          (calls : list (call A)) (om : ometa),
     wf_ds A ds -> len filt = ds_len ds ->
-    export_full A d z enum rnd cfg ds innate sm filt filtered skip logs tables
+    export_full A d z enum rnd cfg pre ds innate sm filt filtered skip logs tables
                 basins features = Ok (calls, om) ->
     exists cnt,
       export A d z enum cfg ds filt filtered skip (req_features features innate)
@@ -221,15 +223,40 @@ Theorem C02_export_meta_spec :
                           | None => None
                           end)
       /\ om_sample om = sm_sample sm
-      /\ (forall l, In l (om_logs om) <-> logs = true /\ In l (sm_logs sm))
-      /\ (forall t, In t (om_tables om) <-> tables = true /\ In t (sm_tables sm))
       /\ (features = None -> forall n k, ~ In n innate -> content A calls n k = [])
       /\ (features = Some [] ->
-            calls = [] /\ cnt = if filtered then count_true filt else ds_count ds)
-      /\ (forall b, export_full A d z enum rnd cfg ds innate sm filt filtered skip
-                      logs tables b features = Ok (calls, om)).
+            calls = [] /\ cnt = if filtered then count_true filt else ds_count ds).
 Proof. exact export_meta_spec. Qed.
 Print Assumptions C02_export_meta_spec.
+
+(* Logs and tables: with distinct source names and an injective prefixing of
+   names, every source log (table) is found under its prefixed name with
+   exactly its lines (rows) when the flag is set, no other name holds
+   anything, and nothing is stored when the flag is off. *)
+Theorem C02_export_logs_tables_carried :
+  forall (A : Type) (d z : A) (enum : Z -> A) (rnd cfg : Z) (pre : Z -> Z)
+         (ds : dset A) (innate : list Z) (sm : smeta) (filt : list bool)
+         (filtered skip logs tables basins : bool) (features : option (list Z))
+         (calls : list (call A)) (om : ometa),
+    export_full A d z enum rnd cfg pre ds innate sm filt filtered skip logs tables
+                basins features = Ok (calls, om) ->
+    (forall a b, pre a = pre b -> a = b) ->
+    (NoDup (map fst (sm_logs sm)) ->
+       (logs = true -> forall n l, In (n, l) (sm_logs sm) ->
+          text_content (om_logs om) (pre n) = l)
+       /\ (logs = true -> forall m, (forall n, In n (map fst (sm_logs sm)) ->
+                                     pre n <> m) ->
+          text_content (om_logs om) m = [])
+       /\ (logs = false -> forall m, text_content (om_logs om) m = []))
+    /\ (NoDup (map fst (sm_tables sm)) ->
+       (tables = true -> forall n l, In (n, l) (sm_tables sm) ->
+          text_content (om_tables om) (pre n) = l)
+       /\ (tables = true -> forall m, (forall n, In n (map fst (sm_tables sm)) ->
+                                       pre n <> m) ->
+          text_content (om_tables om) m = [])
+       /\ (tables = false -> forall m, text_content (om_tables om) m = [])).
+Proof. exact export_texts_spec. Qed.
+Print Assumptions C02_export_logs_tables_carried.
 
 (* fluorescence:channel count of the source is carried over whatever subset
    of the fluorescence features is exported; only a missing value is filled in
@@ -241,3 +268,14 @@ Theorem C02_channel_count_carried :
     /\ (src = None -> nfl <= 0 -> rectify_chcount src nfl = None).
 Proof. exact chcount_spec. Qed.
 Print Assumptions C02_channel_count_carried.
+
+(* [finding C02-short-scalar-indexerror] a requested scalar feature shorter
+   than the dataset makes the export raise IndexError (boolean index of
+   len(ds) entries) even though the filter was clipped to the common length;
+   C02_export_total_partial therefore demands full-length scalars. *)
+Theorem C02_export_short_scalar_refuted :
+  exists (ds : dset Z) filt req,
+    wf_ds Z ds /\ len filt = ds_len ds /\
+    export Z 0 0 (fun k => k) 1 ds filt true false req = Err 2.
+Proof. exact export_short_scalar_refuted. Qed.
+Print Assumptions C02_export_short_scalar_refuted.
